@@ -78,13 +78,17 @@ def run_program(tier, idx, prog=None, plan=None, seed=None):
         ncalls = 6
         plan_out = []
         INST = '<INST>'
-        def enc_args(a): return repr([INST if (inst is not None and x is inst) else x for x in a])
-        def dec_args(sx): return [inst if (isinstance(x, str) and x == INST) else x for x in eval(sx)]
+        def enc_v(x): return INST if (inst is not None and x is inst) else sk.OBJ_MARK.get(id(x), x)
+        def dec_v(x): return inst if (isinstance(x, str) and x == INST) else (sk.OBJ_BY_MARK.get(x, x) if isinstance(x, str) else x)
+        def enc_args(a): return repr([enc_v(x) for x in a])
+        def dec_args(sx): return [dec_v(x) for x in eval(sx)]
+        def enc_kw(k): return repr({n: enc_v(v) for n, v in k.items()})
+        def dec_kw(sx): return {n: dec_v(v) for n, v in eval(sx).items()}
         if plan is not None: ncalls = len(plan)
         for ci in range(ncalls):
             if plan is not None:
                 ign = tuple(eval(plan[ci]['ign']))
-                group = [tuple([g[0], dec_args(g[1]), eval(g[2])] + ([tuple(g[3])] if len(g) > 3 and g[3] is not None else [])) for g in plan[ci]['group']]
+                group = [tuple([g[0], dec_args(g[1]), dec_kw(g[2])] + ([tuple(g[3])] if len(g) > 3 and g[3] is not None else [])) for g in plan[ci]['group']]
                 args, kw = group[0][1], group[0][2]
                 sel0 = selected(prog, ign, inst_first)
             else:
@@ -111,7 +115,7 @@ def run_program(tier, idx, prog=None, plan=None, seed=None):
                     if not cand: break
                     kind, pos = r.choice(cand)
                     old = a3[pos] if kind == 'a' else k3[pos]
-                    new = r.choice([v for v in sk.POOL if not (v == old)])
+                    new = r.choice([v for v in sk.CALL_POOL if not (v == old)])
                     if kind == 'a': a3[pos] = new
                     else: k3[pos] = new
                     try: sk.full_bind(f, a3, k3); sig.bind(*a3, **k3)
@@ -129,6 +133,19 @@ def run_program(tier, idx, prog=None, plan=None, seed=None):
                             sk.full_bind(f, a5, k5); sig.bind(*a5, **k5)
                             group.append(('mutate', a5, k5, ('k', p.name)))
                             tags['default-vs-given'] += 1
+                        except (TypeError, ValueError): pass
+                # extra keywords moved to the positional tail as name, value, ... (flat keys keep the two apart only by the sentinel)
+                if prog['varargs'] and prog['varkw'] and not ign and not inst_first:
+                    try: extras = sorted(sk.full_bind(f, args, kw)[2].items())
+                    except (TypeError, ValueError): extras = []
+                    if extras and all(n in kw for n, _ in extras):
+                        a6 = list(args) + [x for it in extras for x in it]
+                        k6 = {n: v for n, v in kw.items() if n not in dict(extras)}
+                        try:
+                            n6 = sk.full_bind(f, a6, k6)
+                            if n6[0] == sk.full_bind(f, args, kw)[0] and not n6[2]:      # same named binding, only tail/keywords moved
+                                sig.bind(*a6, **k6)
+                                group.append(('tailkw', a6, k6))
                         except (TypeError, ValueError): pass
                 # typed clause: ==-equal values of different type (1, 1.0, True), also swapped across two
                 # parameters with the keywords spelled in the opposite order
@@ -155,7 +172,7 @@ def run_program(tier, idx, prog=None, plan=None, seed=None):
             else:
                 tags['invalid'] += 1
             sel = selected(prog, ign, inst_first)
-            plan_out.append(dict(ign=repr(ign), group=[[g[0], enc_args(g[1]), repr(g[2]), list(g[3]) if len(g) > 3 else None] for g in group]))
+            plan_out.append(dict(ign=repr(ign), group=[[g[0], enc_args(g[1]), enc_kw(g[2]), list(g[3]) if len(g) > 3 else None] for g in group]))
             group_keys = []
             for g in group:
                 gkind, a, k = g[0], g[1], g[2]
@@ -281,6 +298,13 @@ def run_program(tier, idx, prog=None, plan=None, seed=None):
                                                                       kwonly=(g[3][0] == 'k' and g[3][1] in sk.KWONLY[:prog['nkw']])),
                                                  msg='%s%r ignore=%r: %r vs %r differ in the type of an argument but share key %.200r' % (
                                                      kmk, kmo, ign, (base['args'], base['kw']), (rec['args'], rec['kw']), eb['key']), item=dict(ci=rec['ci'])))
+                    if g[0] == 'tailkw' and ((not flat) or kmo.get('sentinel')):
+                        tags['C10-pair'] += 1; tags['tail-vs-keywords'] += 1
+                        if same:
+                            viol.append(dict(prop='C10', sig=dict(kind='different-calls-share-key', keymap=kmk, flat=flat, typed=bool(kmo.get('typed')),
+                                                                  ignore_dstar=False, str_unwrap=False, tail_vs_keywords=True),
+                                             msg='%s%r: %r vs %r (keywords moved to the positional tail) bind different values but share key %r' % (
+                                                 kmk, kmo, (base['args'], base['kw']), (rec['args'], rec['kw']), eb['key']), item=dict(ci=rec['ci'])))
                     if g[0] == 'mutate':
                         kind, pos = g[3]
                         is_sel = mutated_selected(prog, sel, kind, pos, g[1], inst_first)
